@@ -1,11 +1,15 @@
 package main
 
-import "fmt"
+import (
+	"fmt"
+
+	"github.com/0xrawsec/sod"
+)
 
 // C04 — close/reopen preserves everything (DESIGN 4/C04).
 
 func init() {
-	drivers["C04"] = &driver{cases: tierN(300, 6000), run: runC04}
+	drivers["C04"] = &driver{cases: tierN(300, 20000), run: runC04}
 }
 
 func (w *World) obsForReopen() (ObsOpts, map[string]string) {
@@ -45,10 +49,28 @@ func runC04(k int, rng *Rng) CaseResult {
 		Mix: Mix{Ins: 35, Upd: 30, Noop: 3, Del: 12, Reins: 2, Many: 6, Bulk: 2, SDel: 2, Flush: 2, Tick: 2}}
 	reopens := 0
 	segments := 2 + rng.Intn(4)
+	peeks := 0
 	for s := 0; s < segments && !w.failed(); s++ {
 		n := 2 + rng.Intn(8)
 		for i := 0; i < n && !w.failed(); i++ {
 			w.Step(o)
+			// synchronous mode: every completed call has committed, so a
+			// second handle opened on the directory right now (the first one
+			// keeps running) must already see everything
+			if cfg.Async == 0 && !w.failed() && rng.P(0.3) {
+				live := w.db
+				w.db = sod.Open(w.root)
+				w.handles = append(w.handles, w.db)
+				if ok, v := w.try(func() {
+					w.ReadSweep()
+					w.SearchSweep(10)
+					w.IndexedEqualitySweep()
+				}); !ok {
+					w.fail("second-handle-differs", "after-completed-call", v.Clause, "a fresh handle opened after a completed call (no Close) does not see the committed state: "+v.Api+": "+first(v.Detail, 600))
+				}
+				w.db = live
+				peeks++
+			}
 		}
 		if w.failed() {
 			break
@@ -102,7 +124,7 @@ func runC04(k int, rng *Rng) CaseResult {
 	}
 	var sample interface{}
 	if k < sampleMax {
-		sample = map[string]interface{}{"config": cfg.String(), "ops": w.absOps, "reopens": reopens}
+		sample = map[string]interface{}{"config": cfg.String(), "ops": w.absOps, "reopens": reopens, "second_handle_peeks": peeks}
 	}
 	return w.finish(append(w.absOps, fmt.Sprint(segments)), reopens >= 1 && w.accepts >= 2, sample)
 }
